@@ -8,6 +8,129 @@ the cross-check of (a): a `sat` model is only believed if (b) reproduces it.
 from __future__ import annotations
 
 
+
+import hashlib
+import struct
+from fractions import Fraction
+
+FP_FMT = {32: (8, 24), 64: (11, 53)}
+
+
+def fp_decode(bits, w):
+    """bit pattern -> ('nan',) | ('inf', sign) | ('num', Fraction)"""
+    eb, sb = FP_FMT[w]
+    sign = (bits >> (w - 1)) & 1
+    e = (bits >> (sb - 1)) & ((1 << eb) - 1)
+    m = bits & ((1 << (sb - 1)) - 1)
+    bias = (1 << (eb - 1)) - 1
+    if e == (1 << eb) - 1:
+        return ("nan",) if m else ("inf", sign)
+    if e == 0:
+        v = Fraction(m, 1 << (sb - 1)) * Fraction(2) ** (1 - bias)
+    else:
+        v = (1 + Fraction(m, 1 << (sb - 1))) * Fraction(2) ** (e - bias)
+    return ("num", -v if sign else v, sign)
+
+
+def fp_round(sign, mag, w):
+    """Round the non-negative rational `mag` to format w, round-to-nearest-even; returns the bit pattern."""
+    eb, sb = FP_FMT[w]
+    bias = (1 << (eb - 1)) - 1
+    sbit = sign << (w - 1)
+    if mag == 0:
+        return sbit
+    # find e with 2^e <= mag < 2^(e+1)
+    n, d = mag.numerator, mag.denominator
+    e = n.bit_length() - d.bit_length()
+    if Fraction(2) ** e > mag:
+        e -= 1
+    elif Fraction(2) ** (e + 1) <= mag:
+        e += 1
+    e = max(e, 1 - bias)                       # subnormal range shares the smallest exponent
+    q = mag / Fraction(2) ** (e - (sb - 1))    # significand scaled to an integer with sb bits
+    f = q.numerator // q.denominator
+    rem = q - f
+    if rem > Fraction(1, 2) or (rem == Fraction(1, 2) and (f & 1)):
+        f += 1
+    if f >= (1 << sb):
+        f >>= 1
+        e += 1
+    if f < (1 << (sb - 1)):                    # subnormal (or zero)
+        return sbit | f
+    if e > bias:
+        return sbit | (((1 << eb) - 1) << (sb - 1))          # overflow -> infinity
+    return sbit | ((e + bias) << (sb - 1)) | (f & ((1 << (sb - 1)) - 1))
+
+
+def fp_convert(bits, fb, tb):
+    """IEEE 754 format conversion, round-to-nearest-even.  A NaN becomes the quiet NaN with the sign and the top payload
+    bits kept (what x86/ARM hardware does); wasm leaves the payload nondeterministic -- obligations exclude NaN inputs."""
+    d = fp_decode(bits, fb)
+    eb, sb = FP_FMT[tb]
+    sign = (bits >> (fb - 1)) & 1
+    if d[0] == "nan":
+        fsb = FP_FMT[fb][1]
+        pay = bits & ((1 << (fsb - 1)) - 1)
+        pay = pay >> (fsb - sb) if fsb >= sb else pay << (sb - fsb)
+        return (sign << (tb - 1)) | (((1 << eb) - 1) << (sb - 1)) | (1 << (sb - 2)) | pay
+    if d[0] == "inf":
+        return (sign << (tb - 1)) | (((1 << eb) - 1) << (sb - 1))
+    return fp_round(sign, abs(d[1]), tb)
+
+
+def int_to_fp(v, w, signed, tb):
+    if signed:
+        v = to_signed(v, w)
+    return fp_round(1 if v < 0 else 0, Fraction(abs(v)), tb)
+
+
+def fp_in_range(bits, fb, tw, signed):
+    d = fp_decode(bits, fb)
+    if d[0] != "num":
+        return 0
+    t = int(d[1])                                # truncation toward zero
+    lo, hi = (-(1 << (tw - 1)), (1 << (tw - 1)) - 1) if signed else (0, (1 << tw) - 1)
+    return 1 if lo <= t <= hi else 0
+
+
+def fp_to_int(bits, fb, tw, signed, policy):
+    """truncate toward zero; out of range / NaN: 'sat' saturates (NaN -> 0), 'raw' returns 0 (callers guard it)."""
+    d = fp_decode(bits, fb)
+    lo, hi = (-(1 << (tw - 1)), (1 << (tw - 1)) - 1) if signed else (0, (1 << tw) - 1)
+    if d[0] == "nan":
+        return 0
+    if d[0] == "inf":
+        t = lo - 1 if d[1] else hi + 1
+    else:
+        t = int(d[1])
+    if lo <= t <= hi:
+        return t & mask(tw)
+    if policy == "sat":
+        return (lo if t < lo else hi) & mask(tw)
+    return 0
+
+
+def _fp_lit(bits, w):
+    eb, sb = FP_FMT[w]
+    return "((_ to_fp %d %d) #x%0*x)" % (eb, sb, w // 4, bits)
+
+
+def _as_fp(t):
+    eb, sb = FP_FMT[t.w]
+    return "((_ to_fp %d %d) %s)" % (eb, sb, t.smt())
+
+
+def _range_bounds(fb, tw, signed):
+    """(strict?, lower literal bits, upper literal bits): in range  <=>  lower (<|<=) f  and  f < upper."""
+    sb = FP_FMT[fb][1]
+    hi = fp_round(0, Fraction(1 << (tw - 1 if signed else tw)), fb)          # 2^(w-1) / 2^w, exact
+    if not signed:
+        return True, fp_round(1, Fraction(1), fb), hi                        # -1 < f
+    if tw <= sb:                                                             # 2^(w-1)+1 is representable
+        return True, fp_round(1, Fraction((1 << (tw - 1)) + 1), fb), hi
+    return False, fp_round(1, Fraction(1 << (tw - 1)), fb), hi               # -2^(w-1) <= f
+
+
 def mask(w: int) -> int:
     return (1 << w) - 1
 
@@ -53,7 +176,63 @@ class T:
             return "(ite (= %s %s) #b1 #b0)" % (a[0].smt(), a[1].smt())
         if o in ("ult", "ule", "slt", "sle"):
             return "(ite (bv%s %s %s) #b1 #b0)" % (o, a[0].smt(), a[1].smt())
+        if o in ("fpconv", "int2fp", "fp2int"):
+            return self.fresh_name()
+        if o == "fpinrange":
+            fb, tw, signed = self.val
+            strict, lo, hi = _range_bounds(fb, tw, signed)
+            f = _as_fp(a[0])
+            return "(ite (and (%s %s %s) (fp.lt %s %s)) #b1 #b0)" % ("fp.lt" if strict else "fp.leq", _fp_lit(lo, fb), f, f,
+                                                                    _fp_lit(hi, fb))
         raise ValueError("smt: unknown op %s" % o)
+
+    # ---- floating-point conversion nodes: a fresh bit-vector variable + a defining assertion (FloatingPoint theory) ----
+    def fresh_name(self):
+        return "fp_%s_%s" % (self.op, hashlib.sha1(("%s|%r|%s" % (self.op, self.val, self.args[0].smt())).encode()).hexdigest()[:10])
+
+    def fp_defs(self, acc=None):
+        """{fresh variable: (width, [assertions])} for every conversion node below this term."""
+        acc = {} if acc is None else acc
+        for x in self.args:
+            x.fp_defs(acc)
+        o = self.op
+        if o in ("fpconv", "int2fp", "fp2int"):
+            n = self.fresh_name()
+            if n not in acc:
+                a = self.args[0]
+                if o == "fpconv":
+                    fb, tb = self.val
+                    eb, sb = FP_FMT[tb]
+                    asserts = ["(= ((_ to_fp %d %d) %s) ((_ to_fp %d %d) RNE %s))" % (eb, sb, n, eb, sb, _as_fp(a))]
+                elif o == "int2fp":
+                    signed, tb = self.val
+                    eb, sb = FP_FMT[tb]
+                    asserts = ["(= ((_ to_fp %d %d) %s) ((_ %s %d %d) RNE %s))"
+                               % (eb, sb, n, "to_fp" if signed else "to_fp_unsigned", eb, sb, a.smt())]
+                else:
+                    fb, tw, signed, policy = self.val
+                    f = _as_fp(a)
+                    conv = "((_ %s %d) RTZ %s)" % ("fp.to_sbv" if signed else "fp.to_ubv", tw, f)
+                    inr = "(= %s #b1)" % T("fpinrange", (a,), 1, val=(fb, tw, signed)).smt()
+                    if policy == "sat":
+                        lo, hi = (1 << (tw - 1), (1 << (tw - 1)) - 1) if signed else (0, (1 << tw) - 1)
+                        asserts = ["(= %s (ite (fp.isNaN %s) %s (ite %s %s (ite (fp.isNegative %s) %s %s))))"
+                                   % (n, f, const(0, tw).smt(), inr, conv, f, const(lo, tw).smt(), const(hi, tw).smt())]
+                    else:
+                        asserts = ["(=> %s (= %s %s))" % (inr, n, conv)]
+                acc[n] = (self.w, asserts)
+        return acc
+
+    def uses_fp(self):
+        return self.op in ("fpconv", "int2fp", "fp2int", "fpinrange") or any(x.uses_fp() for x in self.args)
+
+    def fp_guard(self):
+        """1-bit term: no floating-point conversion below this term sees a NaN (NaN payloads of conversions are
+        nondeterministic on wasm, so bit-level goals are stated for non-NaN conversion inputs)."""
+        g = [x.fp_guard() for x in self.args]
+        if self.op == "fpconv":
+            g.append(bnot(fp_isnan(self.args[0])))
+        return band(*g)
 
     # ---- concrete evaluation ---------------------------------------
     def ev(self, env: dict) -> int:
@@ -107,6 +286,14 @@ class T:
             return 1 if to_signed(a[0].ev(env), a[0].w) < to_signed(a[1].ev(env), a[1].w) else 0
         if o == "sle":
             return 1 if to_signed(a[0].ev(env), a[0].w) <= to_signed(a[1].ev(env), a[1].w) else 0
+        if o == "fpconv":
+            return fp_convert(a[0].ev(env), self.val[0], self.val[1])
+        if o == "int2fp":
+            return int_to_fp(a[0].ev(env), a[0].w, self.val[0], self.val[1])
+        if o == "fp2int":
+            return fp_to_int(a[0].ev(env), *self.val)
+        if o == "fpinrange":
+            return fp_in_range(a[0].ev(env), *self.val)
         raise ValueError("ev: unknown op %s" % o)
 
     # ---- compiled evaluation (fast path for exhaustive narrow-type runs) ----
@@ -149,13 +336,21 @@ class T:
         if o in ("slt", "sle"):
             w = a[0].w
             return "(1 if _sg(%s, %d) %s _sg(%s, %d) else 0)" % (a[0].py(), w, "<" if o == "slt" else "<=", a[1].py(), w)
+        if o == "fpconv":
+            return "_fpconv(%s, %d, %d)" % (a[0].py(), self.val[0], self.val[1])
+        if o == "int2fp":
+            return "_int2fp(%s, %d, %r, %d)" % (a[0].py(), a[0].w, self.val[0], self.val[1])
+        if o == "fp2int":
+            return "_fp2int(%s, %d, %d, %r, %r)" % ((a[0].py(),) + tuple(self.val))
+        if o == "fpinrange":
+            return "_fpinrange(%s, %d, %d, %r)" % ((a[0].py(),) + tuple(self.val))
         raise ValueError("py: unknown op %s" % o)
 
     def compile(self, names):
         env = {"_shl": lambda x, s, w: (x << s) & mask(w) if s < w else 0,
                "_lshr": lambda x, s, w: (x >> s) if s < w else 0,
                "_ashr": lambda x, s, w: (to_signed(x, w) >> min(s, w - 1)) & mask(w),
-               "_sg": to_signed}
+               "_sg": to_signed, "_fpconv": fp_convert, "_int2fp": int_to_fp, "_fp2int": fp_to_int, "_fpinrange": fp_in_range}
         return eval("lambda %s: %s" % (", ".join(names), self.py()), env)
 
     def vars(self, acc=None) -> dict:
@@ -245,6 +440,8 @@ def band(*cs):
     r = None
     for c in cs:
         assert c.w == 1
+        if c is TRUE:
+            continue
         r = c if r is None else T("and", (r, c), 1)
     return r if r is not None else TRUE
 
@@ -259,3 +456,26 @@ def bor(*cs):
 
 TRUE = const(1, 1)
 FALSE = const(0, 1)
+
+
+def fp_isnan(a):
+    eb, sb = FP_FMT[a.w]
+    e = extract(a, a.w - 2, sb - 1)
+    m = extract(a, sb - 2, 0)
+    return band(eq(e, const(mask(eb), eb)), bnot(eq(m, const(0, sb - 1))))
+
+
+def fpconv(a, tb):
+    return a if a.w == tb else T("fpconv", (a,), tb, val=(a.w, tb))
+
+
+def int2fp(a, signed, tb):
+    return T("int2fp", (a,), tb, val=(bool(signed), tb))
+
+
+def fp2int(a, tw, signed, policy):
+    return T("fp2int", (a,), tw, val=(a.w, tw, bool(signed), policy))
+
+
+def fpinrange(a, tw, signed):
+    return T("fpinrange", (a,), 1, val=(a.w, tw, bool(signed)))
